@@ -265,7 +265,7 @@ func main() {
 			switch f.typ {
 			case 1: // bool
 				if methods[tn][G] && methods[tn][S] {
-					fmt.Fprintf(&out, "func VH_TV_%s_%s() {\n\ts, j, old := vTVPre(%s)\n\tx := %s{Struct: s}\n\tgot := x.%s()\n\tvAssert(got == (vTVBit(s, %d) != %v), \"C15.tv.bool-getter\")\n\tv := vNondetBool()\n\tx.%s(v)\n\tvAssert((vTVBit(s, %d) != %v) == v, \"C15.tv.bool-setter\")\n\tvTVPost(s, j, old, %d, 1, %s)\n}\n\n", tn, G, common, tn, G, f.offset, f.defBool, S, f.offset, f.defBool, f.offset/8, common)
+					fmt.Fprintf(&out, "func VH_TV_%s_%s() {\n\ts, j, old := vTVPre(%s)\n\tx := %s{Struct: s}\n\tgot := x.%s()\n\tvAssert(got == (vTVBit(s, %d) != %v), \"C15.tv.bool-getter\")\n\tv := vNondetBool()\n\tvTVScramble(s, %d, %s)\n\tx.%s(v)\n\tvAssert((vTVBit(s, %d) != %v) == v, \"C15.tv.bool-setter\")\n\tvTVPost(s, j, old, %d, 1, %s)\n}\n\n", tn, G, common, tn, G, f.offset, f.defBool, 2*ns.discOffset, disc, S, f.offset, f.defBool, f.offset/8, common)
 					emitted++
 				} else {
 					skipped++
@@ -283,6 +283,25 @@ func main() {
 				skipped++
 				continue
 			default: // pointer kinds
+				// the setter / allocator of a pointer field makes its union member the active one
+				// and fills the slot, starting from ANY other active member
+				{
+					call := ""
+					switch {
+					case f.typ == 12 && methods[tn][S]:
+						call = fmt.Sprintf("err := x.%s(\"ab\")", S)
+					case f.typ == 13 && methods[tn][S]:
+						call = fmt.Sprintf("err := x.%s([]byte{1})", S)
+					case f.typ == 16 && methods[tn]["New"+title(f.name)]:
+						call = fmt.Sprintf("_, err := x.New%s()", title(f.name))
+					case f.typ == 14 && methods[tn]["New"+title(f.name)] && paramType[tn+".New"+title(f.name)] == "int32":
+						call = fmt.Sprintf("_, err := x.New%s(1)", title(f.name))
+					}
+					if call != "" {
+						fmt.Fprintf(&out, "func VH_TV_%s_%s__fill() {\n\ts := vTVStruct(%d, %d)\n\tvTVScramble(s, %d, %s)\n\tx := %s{Struct: s}\n\tvReach(\"entry\")\n\t%s\n\tvAssert(err == nil, \"C15.tv.pointer-setter-succeeds\")\n\tif err != nil {\n\t\treturn\n\t}\n\tvTVPtrPost(s, %d, %d, %s)\n}\n\n", tn, G, D, P, 2*ns.discOffset, disc, tn, call, f.offset, 2*ns.discOffset, disc)
+						emitted++
+					}
+				}
 				if methods[tn][H] {
 					fmt.Fprintf(&out, "func VH_TV_%s_%s() {\n\ts, _, _ := vTVPre(%s)\n\tx := %s{Struct: s}\n\tvAssert(x.%s() == s.HasPtr(%d), \"C15.tv.has-reads-the-pointer-slot\")\n}\n\n", tn, H, common, tn, H, f.offset)
 					emitted++
@@ -305,7 +324,7 @@ func main() {
 				setArg = fmt.Sprintf("vTVFloat%dfrombits(uint%d(v))", bits, bits)
 			}
 			fmt.Fprintf(&out, "func VH_TV_%s_%s() {\n\ts, j, old := vTVPre(%s)\n\tx := %s{Struct: s}\n\tgot := %s\n\tvAssert(got == vTVLoad(s, %d, %d)^%d, \"C15.tv.getter-reads-field-xor-default\")\n", tn, G, common, tn, getExpr, byteOff, bits/8, f.defBits)
-			fmt.Fprintf(&out, "\tv := vNondetU64() & %d\n", (uint64(1)<<uint(bits))-1)
+			fmt.Fprintf(&out, "\tv := vNondetU64() & %d\n\tvTVScramble(s, %d, %s)\n", (uint64(1)<<uint(bits))-1, 2*ns.discOffset, disc)
 			if isFloat {
 				fmt.Fprintf(&out, "\tx.%s(%s)\n", S, setArg)
 			} else {
